@@ -92,7 +92,11 @@ class DampedOscillation(Contract):
                 for ng in ((1,) if irf == "none" else (1, 2)):
                     if ng == 2 and (irf == "shift" or n > 1) and tier == "quick":
                         continue
-                    yield {"irf": irf, "n": n, "gaussians": ng}
+                    yield {"irf": irf, "n": n, "gaussians": ng, "rates": "nonneg"}
+        # damping rates of either sign: negative rates use the mirrored (anti-causal) closed form on tau < 5 sigma
+        yield {"irf": "plain", "n": 1, "gaussians": 1, "rates": "neg"}
+        yield {"irf": "shift", "n": 1, "gaussians": 1, "rates": "neg"}
+        yield {"irf": "plain", "n": 2, "gaussians": 1, "rates": "mixed"}
 
     def build(self, S, case):
         from glotaran.builtin.megacomplexes.damped_oscillation.damped_oscillation_megacomplex import DampedOscillationMegacomplex
@@ -105,15 +109,21 @@ class DampedOscillation(Contract):
         fmax = 1 / (2 * 0.03 * 0.75)
         for f in fv:
             S.require(L.lt(f * 0.03 * 2 * np.pi, fmax), "below the Nyquist frequency of the time axis (no folding)")
-        for r in rv:
-            S.require(L.gt(r, 0), "damping rates positive")
+        signs = []
+        for j, r in enumerate(rv):
+            neg = case["rates"] == "neg" or (case["rates"] == "mixed" and j == 1)
+            signs.append(-1.0 if neg else 1.0)
+            if neg:
+                S.require(L.lt(r, 0), "negative damping rate")
+            else:
+                S.require(L.ge(r, 0), "damping rate non-negative (an undamped oscillation, rate exactly 0, is causal)")
         labels = [f"osc{i}" for i in range(n)]
         mc = DampedOscillationMegacomplex(label="doas", labels=labels, frequencies=fp, rates=rp)
         if case["irf"] == "none":
             irf, cv, wv, sv, shv = None, None, None, None, None
         else:
             irf, cv, wv, sv, shv = _irf(S, case["irf"], len(gaxis), case["gaussians"])
-        return {"mc": mc, "dm": _DM(irf), "t": t, "g": gaxis, "fv": fv, "rv": rv, "cv": cv, "wv": wv, "sv": sv, "shv": shv, "labels": labels}
+        return {"mc": mc, "dm": _DM(irf), "t": t, "g": gaxis, "fv": fv, "rv": rv, "cv": cv, "wv": wv, "sv": sv, "shv": shv, "labels": labels, "signs": signs}
 
     def stubs_for(self, S, case, inp):
         if not S.symbolic:
@@ -159,10 +169,11 @@ class DampedOscillation(Contract):
                         for g in range(case["gaussians"]):
                             # the same effective IRF position as the decay model of the dataset: centre - shift_i
                             tau = float(t[ti]) - (inp["cv"][g] - inp["shv"][gi if dep else 0])
-                            # positive rates: the causal branch is used on tau > -5 sigma, zero before
-                            inside = _decide(tau > -5 * inp["wv"][g], S)
+                            # rates >= 0: the causal form on tau > -5 sigma, zero before; rates < 0: mirrored form on tau < 5 sigma
+                            sgn = inp["signs"][j]
+                            inside = _decide(tau > -5 * inp["wv"][g], S) if sgn > 0 else _decide(tau < 5 * inp["wv"][g], S)
                             if inside:
-                                term = osc_closed_form(tau, gam, om, inp["wv"][g], 1.0, inp["sv"][g])
+                                term = osc_closed_form(tau, gam, om, inp["wv"][g], sgn, inp["sv"][g])
                                 acc = term if acc is None else acc + term
                         if acc is None:
                             want_c = want_s = 0.0
